@@ -17,7 +17,7 @@ machine and is NOT decided.  Decided is the store discipline every spelling funn
 from .. import rules
 from ..rules import (callee_is, object_of, field_name, call_args, mentions_field, mentions_call,
                      mentions_var, loops_in, loop_header)
-from ..facts import children, strip_all_casts, walk, CALL_KINDS
+from ..facts import children, strip_all_casts, walk, CALL_KINDS, AnalysisBroken
 from .c02 import element_loops, short_cls
 from . import c05
 
@@ -227,6 +227,44 @@ def r5_one_shot_flags(chk, prog):
               'the request is only raised by remArgStrAsVal()', '', 'raised in %s' % writers)
 
 
+FIRST_OCCURRENCE = ('find', 'find_first_of', 'strchr', 'memchr')
+LAST_OCCURRENCE = ('rfind', 'find_last_of', 'strrchr', 'memrchr')
+
+
+def r6_key_value_split(chk, prog):
+    """tokeniser: '--key=value' is split at the FIRST '=' of the word - a key never contains '=', so everything
+    behind the first one is the value ('--define=LEVEL=3' is the same assignment as '--define LEVEL=3').  Decided on
+    the search that looks for the '=' in determineNextArg(): it must belong to the first-occurrence family; a search
+    this rule does not know is reported as analysis-broken, never as a pass"""
+    fs = [f for f in prog.functions if (f.classq or '') == 'celma::prog_args::detail::ArgListIterator'
+          and f.short == 'determineNextArg' and f.body is not None]
+    chk.require(fs, 'ArgListIterator::determineNextArg() not instantiated')
+    n = 0
+    for f in fs:
+        sites = []
+        for c in f.calls():
+            args = call_args(c)
+            if any(strip_all_casts(a).get('k') == 'CharacterLiteral' and strip_all_casts(a).get('val') == ord('=')
+                   or strip_all_casts(a).get('k') == 'StringLiteral' and strip_all_casts(a).get('str') == '='
+                   for a in args):
+                sites.append(c)
+        if not sites:
+            raise AnalysisBroken('no search for the \'=\' of --key=value found in %s' % f.key)
+        for c in sites:
+            short = (c.get('callee') or '').split('::')[-1]
+            if short in ('operator==', 'operator!=') or c.get('k') == 'CXXOperatorCallExpr':
+                continue
+            n += 1
+            if short not in FIRST_OCCURRENCE + LAST_OCCURRENCE:
+                raise AnalysisBroken('the search for \'=\' in %s uses %s, which this rule does not know' % (
+                    f.key, c.get('callee')))
+            chk.check(short in FIRST_OCCURRENCE, 'R6', f.name, "'--key=value' is split at the first '=' of the word",
+                      f.loc(c), "%s() finds the LAST '=': a value that contains '=' becomes part of the key "
+                      "(--define=LEVEL=3 is rejected or assigned to another argument while --define LEVEL=3 works)"
+                      % short)
+    chk.require(n >= 1, "searches for '=' in determineNextArg(): %d" % n)
+
+
 def run(chk):
     prog, units = rules.prog_args_program()
     chk.units = units
@@ -249,3 +287,5 @@ def run(chk):
     r3(chk, prog, tb)
     c05.r2(chk, prog, rule='R4')
     r5_one_shot_flags(chk, prog)
+    chk.rule('R6', "tokeniser splits --key=value at the first '='", 1)
+    r6_key_value_split(chk, prog)
